@@ -6,7 +6,7 @@ RULE = ("packet signature with boundary-biased fields; signature derived to matc
         "version, eol pad, olen, mss/scale/payload wildcard/equal/off-by-one, every window form, layout edits); the signature is "
         "given to the implementation as TEXT (TCPSignature.parse is inside the tie); sweeps over TTL pairs and single/double quirk "
         "differences; non-trivial = the model reports a match; distinct by input")
-GEN_TIE = True     # the anchored decision functions are also TRANSLATED from /repo's source on every run and proved equal to the model
+GEN_TIE = ['match']     # the anchored decision functions are also TRANSLATED from /repo's source on every run and proved equal to the model
 ASSUMPTIONS = ["packet signatures are constructed directly (any quirk set, as the quantifier demands); extraction from bytes is C03's tie"]
 EXHAUSTIVE = {"sig ttl 1..255 step x pkt ttl x md in {0,1,34,35,36,255} x bad_ttl (thorough: full 255x256)": True,
               "all single- and double-bit quirk differences x 3 signature versions x 2 packet versions": True}
